@@ -338,7 +338,21 @@ def _arith(case, ctx, g):
     o2, C2 = make_cov("dense", g, db, N)
     m2 = util.randn(g, *db, N)
     chk("add_mvn", lambda: d + MVN(m2, o2), mean + m2, C + C2)
+    # the + of two distribution objects is the sum of INDEPENDENT vectors, also when both operands are one object
+    chk("add_mvn", lambda: d + d, 2 * mean, 2 * C)
+    chk("add_mvn", lambda: sum([d, d, d]), 3 * mean, 3 * C)
     chk("add_jitter", lambda: d.add_jitter(0.37), mean, C + 0.37 * torch.eye(N))
+    # exactly the requested amount: tiny, zero and (valid while the matrix stays positive definite) negative amounts
+    lam_min = float(torch.linalg.eigvalsh(C).min())
+    for tag, j in (("tiny", 1e-10), ("zero", 0.0), ("negative", -0.25 * lam_min if lam_min > 1e-6 else None)):
+        if j is None:
+            continue
+        try:
+            added = d.add_jitter(j).covariance_matrix - d.covariance_matrix
+        except Exception as e:
+            ctx.fail("add_jitter", f"add_jitter({j}) raised {type(e).__name__}: {str(e)[:100]}", "raise", exc=type(e).__name__, rep=rep)
+            continue
+        ctx.close("add_jitter", added, (j * torch.eye(N)).expand(added.shape), (max(abs(j) * 1e-3, 1e-14 * float(C.abs().max())), 0.0), cls="add_jitter:amount:" + tag, rep=rep)
     eb = [3] + list(db)
     chk("expand", lambda: d.expand(torch.Size(eb)), mean.expand(*eb, N), C.expand(*eb, N, N))
     for dim in range(-len(db) - 1, len(db) + 1):
